@@ -766,10 +766,10 @@ func extraC18(c *Ctx) {
 		c.Unresolved("R18.5", "canarystyle control plane Finalize")
 		return
 	}
-	isDelete := func(in ssa.Instruction) bool {
+	isDelete := MustDo(func(in ssa.Instruction) bool {
 		ci, ok := in.(ssa.CallInstruction)
 		return ok && ci.Common().IsInvoke() && ci.Common().Method.Name() == "Delete" && strings.Contains(ci.Common().Value.Type().String(), "CanaryInterface")
-	}
+	})
 	found := false
 	for _, ci := range AllCalls(fin) {
 		if isDelete(ci.(ssa.Instruction)) {
